@@ -190,7 +190,7 @@ func chunks(items []string, mask int) [][]string {
 
 type run struct {
 	P     prog   `json:"program"`
-	Mode  string `json:"mode"` // whole-compile | whole-ast | whole-disk | whole-mapfs | eval | compile | ast
+	Mode  string `json:"mode"` // whole-compile | whole-ast | whole-disk | whole-mapfs | eval | compile | ast | files-{mapfs,disk}-{fwd,rev}
 	DMask int    `json:"decl_cuts"`
 	SMask int    `json:"stmt_cuts"`
 }
@@ -243,6 +243,51 @@ func exec(r run) (string, error) {
 			return err
 		case "whole-mapfs":
 			_, err := newInterp(&buf, fstest.MapFS{"w.go": &fstest.MapFile{Data: []byte(p.whole())}}).EvalPath("w.go")
+			return err
+		}
+		if strings.HasPrefix(r.Mode, "files-") {
+			// the declaration chunks become the files of one package directory (file names in chunk order or in
+			// reverse chunk order; main in the last / first file), loaded by EvalPath(dir)
+			cs := chunks(p.Decls, r.DMask)
+			const hd = "package main\n\nimport . \"verif/engine/twin/h\"\n\nvar _ = Show\n\n"
+			files := map[string]string{}
+			rev := strings.HasSuffix(r.Mode, "-rev")
+			for j, c := range cs {
+				n := j
+				if rev {
+					n = len(cs) - 1 - j
+				}
+				files[fmt.Sprintf("d%d.go", n)] = hd + strings.Join(c, "\n\n") + "\n"
+			}
+			mainName := "z_main.go"
+			if rev {
+				mainName = "a_main.go"
+			}
+			files[mainName] = hd + "func main() {\n" + strings.Join(p.Stmts, "\n") + "\n}\n"
+			if strings.HasPrefix(r.Mode, "files-mapfs") {
+				mfs := fstest.MapFS{}
+				for n, t := range files {
+					mfs["gp/src/pk/"+n] = &fstest.MapFile{Data: []byte(t)}
+				}
+				_, err := newInterp(&buf, mfs).EvalPath("./gp/src/pk")
+				return err
+			}
+			gp := filepath.Join(scratch, fmt.Sprintf("gp%d", os.Getpid()))
+			dir := filepath.Join(gp, "src", "pk")
+			os.RemoveAll(gp)
+			if err := os.MkdirAll(dir, 0o755); err != nil {
+				return fmt.Errorf("HARNESS: %v", err)
+			}
+			defer os.RemoveAll(gp)
+			for n, t := range files {
+				if err := os.WriteFile(filepath.Join(dir, n), []byte(t), 0o644); err != nil {
+					return fmt.Errorf("HARNESS: %v", err)
+				}
+			}
+			steps := 0
+			di := interp.New(interp.Options{Stdout: &buf, Stderr: &bytes.Buffer{}, GoPath: gp})
+			di.Use(h.Exports(&buf, &steps))
+			_, err := di.EvalPath("pk") // resolved under GoPath/src, as an import path
 			return err
 		}
 		// piecewise
@@ -433,6 +478,11 @@ func main() {
 					runs = append(runs, run{P: p, Mode: m, DMask: dm, SMask: sm})
 				}
 			}
+			if dm != 0 {
+				for _, m := range []string{"files-mapfs-fwd", "files-mapfs-rev", "files-disk-fwd", "files-disk-rev"} {
+					runs = append(runs, run{P: p, Mode: m, DMask: dm})
+				}
+			}
 		}
 	}
 	res := par.Map(len(runs), func(i int) *fail { return one(runs[i]) }, par.Opts{})
@@ -469,7 +519,7 @@ func main() {
 	r.Set("distinct_nontrivial", len(res.Sets["outputs"]))
 	r.Set("whole_programs_rejected_runs", res.Counts["whole_program_rejected"])
 	r.Set("exhaustive", true)
-	r.Set("rule", fmt.Sprintf("programs = every dependency-closed subset of <= %d of 18 declaration items (define-before-use order) x every sequence of <= %d applicable statements + a final Show of all declared globals; every cut of the declaration section and of the statement section into consecutive chunks x {successive Eval, Compile+Execute, CompileAST+Execute}; whole program through Compile+Execute, CompileAST, EvalPath on disk and on MapFS; reference = Eval of the whole program in a fresh interpreter; states = distinct whole-program outputs", maxD, maxS))
+	r.Set("rule", fmt.Sprintf("programs = every dependency-closed subset of <= %d of 18 declaration items (define-before-use order) x every sequence of <= %d applicable statements + a final Show of all declared globals; every cut of the declaration section and of the statement section into consecutive chunks x {successive Eval, Compile+Execute, CompileAST+Execute}; whole program through Compile+Execute, CompileAST, EvalPath on disk and on MapFS; every cut of the declaration section written as the files of one package directory (file names in chunk order and in reverse chunk order, main in the last / first file) and loaded by EvalPath(dir) on disk and on MapFS; reference = Eval of the whole program in a fresh interpreter; states = distinct whole-program outputs", maxD, maxS))
 	r.Assumptions = []string{"a chunk is either declarations or statements (declarations precede statements); forward references across a cut are not demanded", "reference = the whole program evaluated once (C01 binds that to the compiler)"}
 	for _, i := range []int{0, len(runs) / 2, len(runs) - 1} {
 		r.Sample(map[string]interface{}{"program": runs[i].P.Name, "mode": runs[i].Mode, "decl_cuts": runs[i].DMask, "stmt_cuts": runs[i].SMask, "decls": runs[i].P.Decls, "stmts": runs[i].P.Stmts})
